@@ -26,7 +26,7 @@ func (e *Exec) syncOf(c *Cell) *SyncState {
 	st := e.syncObjs[c]
 	if st == nil {
 		st = &SyncState{readers: map[int]int{}}
-		st.key = &wgKey{st}
+		st.key = &wgKey{st: st, e: e}
 		e.syncObjs[c] = st
 	}
 	return st
